@@ -53,6 +53,12 @@ def run(ctx):
         obligations.append(name)
     vlib.log("APALACHE AgentInd: %d inductive obligations discharged" % len(obligations))
     ctx.extra["apalache_inductive_obligations"] = obligations
+    # ... and as a TLAPS proof for any set of ids
+    nobl, out = ctx.tlapm("AgentProof")
+    if nobl == 0:
+        raise vlib.Inconclusive("TLAPS did not prove AgentProof:\n" + out[-1500:])
+    vlib.log("TLAPS AgentProof: all %d obligations proved" % nobl)
+    ctx.extra["tlaps_obligations_proved"] = nobl
     edges = edges_from(r["out"])
     if not edges:
         raise vlib.Inconclusive("no edges exported by TLC")
